@@ -1,7 +1,8 @@
 (* C10 — Token manager custody, mint authority and role transfers are exact and gated.
    Statements only; proofs in Proofs/TMFacts.v. *)
 From Coq Require Import String List NArith Lia.
-From Ax Require Import Lib.Bytes Lib.Mvx Model.Check Model.Env Model.TokenManager Model.TMUpgrade Proofs.TMFacts Proofs.TMCustody Proofs.TMUpgradeFacts Gen.Generated.
+From Ax Require Import Lib.Bytes Lib.Mvx Lib.Keccak Model.Check Model.Env Model.Gateway Model.TokenManager Model.TMUpgrade Model.Its Proofs.TMFacts Proofs.TMCustody Proofs.TMUpgradeFacts
+     Proofs.ItsMore Proofs.ItsTmGeneric Gen.Generated.
 Import ListNotations.
 Open Scope N_scope.
 
@@ -124,7 +125,28 @@ Proof. exact take_after_history_service_only. Qed.
 Theorem c10_token_forever_with_upgrades : forall ops t l, tm_token t <> [] -> tm_token (fst (urun t l ops)) = tm_token t.
 Proof. exact urun_token. Qed.
 
+(* ---- in the ITS world (Proofs/ItsTmGeneric.v): token managers move by token-manager operations only -- for any preorder respected by every
+   endpoint call and manager step, the manager at a watched address is related to itself across all 25 operation kinds of the world
+   (assumption about the environment: new managers are deployed at fresh addresses).  Instance: service, token id and type never change;
+   so, whatever happened in between, the manager gives and takes only for the service recorded at its deployment *)
+Theorem c10_identity_forever_in_world : forall H verify a ops w t,
+  Forall (fun o => forall c, iop_ctx' o = Some c -> ic_newtm c <> a) ops ->
+  get_tm w a = Some t -> exists t', get_tm (irun H verify w ops) a = Some t' /\ same_identity t t'.
+Proof. exact its_tm_identity_forever. Qed.
+Theorem c10_give_service_only_in_world : forall H verify a ops w t t' l c d x,
+  Forall (fun o => forall c0, iop_ctx' o = Some c0 -> ic_newtm c0 <> a) ops ->
+  get_tm w a = Some t -> get_tm (irun H verify w ops) a = Some t' ->
+  t_caller c <> tm_service t -> give_token t' l c d x = None.
+Proof. exact its_tm_give_service_only. Qed.
+Theorem c10_take_service_only_in_world : forall H verify a ops w t t' l c,
+  Forall (fun o => forall c0, iop_ctx' o = Some c0 -> ic_newtm c0 <> a) ops ->
+  get_tm w a = Some t -> get_tm (irun H verify w ops) a = Some t' ->
+  t_caller c <> tm_service t -> take_token t' l c = None.
+Proof. exact its_tm_take_service_only. Qed.
+
 Print Assumptions c10_give_lock.
+Print Assumptions c10_identity_forever_in_world.
+Print Assumptions c10_give_service_only_in_world.
 Print Assumptions c10_upgrade_spec.
 Print Assumptions c10_service_forever.
 Print Assumptions c10_give_after_history_service_only.
@@ -178,3 +200,17 @@ Example c10_upgrade_nonvacuous :
 Proof. vm_compute. repeat split; reflexivity. Qed.
 Check c10_service_forever.
 Check c10_upgrade_spec.
+
+(* non-vacuity in the world: the history of Proofs/ItsMore.v (an inbound transfer with data, two outbound transfers, a failed delivery)
+   meets the freshness premise, the manager exists before and after, and its flow counters DID change while its identity did not *)
+Example c10_in_world_nonvacuous :
+  Forall (fun o => forall c, iop_ctx' o = Some c -> ic_newtm c <> Findings.tma) Findings.h08 /\
+  get_tm Findings.w08 Findings.tma = Some (Findings.tm0 10) /\
+  match get_tm (irun keccak256 Findings.vf Findings.w08 Findings.h08) Findings.tma with
+  | Some t' => tm_service t' = Findings.self /\ tm_tid t' = Findings.tid /\ tm_type t' = T_LOCK_UNLOCK /\ tm_out t' <> []
+  | None => False end.
+Proof.
+  split; [|vm_compute; repeat split; try reflexivity; discriminate].
+  repeat constructor; intros c E; cbn in E; inversion E; subst; vm_compute; discriminate.
+Qed.
+Check c10_identity_forever_in_world.
